@@ -242,21 +242,30 @@ func (rs *bodyStream) skipRest() error {
 		}
 
 		strCRLFLen := len(bytestr.StrCRLF)
+		// the handler may have stopped in the middle of a chunk: the rest of
+		// that chunk is data, not chunk framing
+		chunkSize := rs.chunkLeft
+		rs.chunkLeft = 0
 		for {
-			chunkSize, err := utils.ParseChunkSize(rs.reader)
-			if err != nil {
-				return err
-			}
-
 			if chunkSize == 0 {
-				rs.chunkEOF = true
-				return SkipTrailer(rs.reader)
+				var err error
+				chunkSize, err = utils.ParseChunkSize(rs.reader)
+				if err != nil {
+					return err
+				}
+
+				if chunkSize == 0 {
+					rs.chunkEOF = true
+					return SkipTrailer(rs.reader)
+				}
 			}
 
-			err = rs.reader.Skip(chunkSize)
+			// the chunk may not be buffered yet, Skip only works on buffered data
+			err := skipN(rs.reader, chunkSize)
 			if err != nil {
 				return err
 			}
+			chunkSize = 0
 
 			crlf, err := rs.reader.Peek(strCRLFLen)
 			if err != nil {
@@ -319,6 +328,32 @@ func (rs *bodyStream) skipRest() error {
 			return nil
 		}
 	}
+}
+
+// skipN discards the next n bytes of r, waiting for those that have not
+// arrived yet.
+func skipN(r network.Reader, n int) error {
+	for n > 0 {
+		skip := r.Len()
+		if skip == 0 {
+			if _, err := r.Peek(1); err != nil {
+				return err
+			}
+			skip = r.Len()
+		}
+		if skip > n {
+			skip = n
+		}
+		if err := r.Skip(skip); err != nil {
+			return err
+		}
+		// After Skip, the buffer needs to be released to prevent OOM if there are too much data on conn.
+		if err := r.Release(); err != nil {
+			return err
+		}
+		n -= skip
+	}
+	return nil
 }
 
 // ReleaseBodyStream releases the body stream.
